@@ -70,7 +70,8 @@ package mcp
 
 // The gate of the receive path. 'dispatched' is the call of handleReceive. vm is the validated per-request
 // metadata, init the lifecycle bit read at the top.
-//@ func (*ServerSession).handle [C06, C03]
+//@ func (*ServerSession).handle [C06, C03, C10]
+//@   track context.WithValue as withValue
 //@   track jsonrpc2.Async as async
 //@   track validateRequestMeta as vrm
 //@   track handleReceive as dispatch
@@ -87,6 +88,7 @@ package mcp
 //@   assert at call handleReceive: @gate-new metaErr == nil && isNew ==> sdkSupports(version) && !removedIn2026(method)
 //@   assert at call handleReceive: @discover-needs-meta method == methodDiscover ==> isNew
 //@   assert at call handleReceive: @meta-valid metaErr == nil && $2 == req
+//@   assert at call handleReceive: @handler-context-carries-the-request-id calls(withValue) >= 1 && typeIs(callArg(withValue, 1, 1), idContextKey) && typeIs(callArg(withValue, 1, 2), jsonrpc2.ID) && callArg(withValue, 1, 2).(jsonrpc2.ID) == req.ID
 //@   ensures @only-calls-other-than-initialize-run-concurrently calls(async) <= 1 && (calls(async) == 1 ==> old(req.ID.value != nil) && method != methodInitialize)
 //@   ensures @dispatch-at-most-once calls(dispatch) <= 1
 //@   ensures @ping-always-served metaErr == nil && !isNew && method == methodPing ==> calls(dispatch) == 1
@@ -887,6 +889,7 @@ package mcp
 //@   protects fields(streamableServerConn.streams), fields(streamableServerConn.requestStreams), fields(streamableServerConn.isDone), maps("map[string]*stream"), maps("map[jsonrpc.ID]string")
 //@   unpublished (*StreamableServerTransport).Connect
 //@   invariant @tables-exist c.streams != nil && c.requestStreams != nil
+//@   transition @routes-are-never-overwritten forall id jsonrpc2.ID :: {rawGet(c.requestStreams, id)} old(c.requestStreams) == c.requestStreams && old(inDom(c.requestStreams, id)) && inDom(c.requestStreams, id) ==> rawGet(c.requestStreams, id) == old(rawGet(c.requestStreams, id))
 
 // stream.mu guards the delivery state of one logical stream.
 //@ monitor stmu lock stream.mu as s [C10, C08]
@@ -997,3 +1000,21 @@ package mcp
 //@   abstract
 //@   modifies extern
 //@   modifies fields(MemoryEventStore.nBytes), fields(MemoryEventStore.store), maps("map[string]map[string]*dataList"), maps("map[string]*dataList"), fields(dataList.first), fields(dataList.size), fields(dataList.data), allElems("[]byte")
+
+// servePOST, registration of a new request stream: in one critical section, either some id of the batch is already
+// in flight (rejected, nothing registered) or routes are added for ids that had none - an existing route is never
+// overwritten (the transition invariant of cmu), so a response can never be steered to another request's exchange.
+//@ func (*streamableServerConn).servePOST [C10, C08]
+//@   heapfacts off
+//@   track checkRequest as t1
+//@   track validateMcpHeaders as t2
+//@   track extractName as t3
+//@   track writeJSONRPCError as t4
+//@   track receivingMethodInfos as t5
+//@   track readBatch as t6
+//@   track hangResponse as t7
+//@   track newStream as t8
+//@   requires c != nil && req != nil && w != nil
+//@   modifies *
+//@   loop 3: invariant @ids-seen-so-far-are-not-in-flight c.requestStreams == at(locked_cmu_1, c.requestStreams) && (forall id jsonrpc2.ID :: {inDom(c.requestStreams, id)} (id in $visited) ==> !inDom(c.requestStreams, id)) && (forall id jsonrpc2.ID :: {inDom(c.requestStreams, id)} inDom(c.requestStreams, id) <==> at(locked_cmu_1, inDom(c.requestStreams, id)))
+//@   loop 4: invariant @only-fresh-ids-get-routes c.requestStreams == at(locked_cmu_1, c.requestStreams) && (forall id jsonrpc2.ID :: {inDom(local(calls), id)} inDom(local(calls), id) ==> !at(locked_cmu_1, inDom(c.requestStreams, id))) && (forall id jsonrpc2.ID :: {rawGet(c.requestStreams, id)} at(locked_cmu_1, inDom(c.requestStreams, id)) ==> inDom(c.requestStreams, id) && rawGet(c.requestStreams, id) == at(locked_cmu_1, rawGet(c.requestStreams, id)))
